@@ -210,7 +210,7 @@ def run(ctx):
                 st["evict_asked"] += kv["evict"] == "asked"
                 st["A_same"] += kv["A"] == "same"
                 st["B_same"] += kv["B"] == "same"
-                was_openable = "OPENED" in acc
+                was_openable = acc == {"OPENED"} or cls in ("valid-header-short-file", "huge-declared-size")
                 recreated = not was_openable
                 st["recreated" if recreated else "taken_over"] += 1
                 rec = [int(x) for x in kv["rec"].split(",")]
